@@ -209,6 +209,7 @@ class ArrOf(Spec):
     def make(self, name, ctx):
         n = z3.Int(name + '_len')
         ctx.assume(n >= 0)
+        ctx.len_vars.append(n)
         if self.dtype == 'float':
             arr = z3.Array(name, z3.IntSort(), z3.RealSort())
             nan = z3.Array(name + '_nan', z3.IntSort(), z3.BoolSort())
